@@ -213,16 +213,15 @@ open Scales.TagPool in
 /-- **Specification level.**  The component's executable specification, C12 clauses included,
     holds of every history of the model. -/
 theorem C12_mux_model_satisfies_spec (cfg : Cfg) (ops : List Op) (hc : cfgWF cfg = true)
-    (ho : opsOk cfg St.init ops = true) : comp.spec cfg (comp.modelTrace cfg ops) = .ok := by
-  simp only [cfgWF, decide_eq_true_eq] at hc
-  exact spec12_trace cfg hc ops {} St.init 0 (Inv_init cfg hc) (Inv12_init cfg) (InvM_init cfg) ho
+    (ho : opsOk cfg (initSt cfg) ops = true) : comp.spec cfg (comp.modelTrace cfg ops) = .ok := by
+  exact spec12_trace cfg (wf_max hc) ops (Acc.init cfg) (initSt cfg) 0 (Inv_init cfg hc) (Inv12_init cfg) (InvM_init cfg) ho
 
 open Scales.TagPool in
 /-- **No transmission after the time-out.**  Once the deadline event of request `rid` has fired,
     no later step writes a request frame of `rid` (as long as the connection is not replaced,
     which starts the request numbering afresh). -/
 theorem C12_mux_no_write_after_fire (cfg : Cfg) (ops : List Op) (hc : cfgWF cfg = true)
-    (ho : opsOk cfg St.init ops = true) (h1 h2 h3 : List (Op × Obs)) (rid : Nat) (o1 : Obs) (op : Op) (o : Obs)
+    (ho : opsOk cfg (initSt cfg) ops = true) (h1 h2 h3 : List (Op × Obs)) (rid : Nat) (o1 : Obs) (op : Op) (o : Obs)
     (htr : comp.modelTrace cfg ops = h1 ++ (.fire rid, o1) :: (h2 ++ (op, o) :: h3))
     (hno : ∀ p ∈ h2, p.1 ≠ .reopen) :
     ∀ f ∈ o.wrote, f.kind = .req → f.arg ≠ rid := by
@@ -230,9 +229,9 @@ theorem C12_mux_no_write_after_fire (cfg : Cfg) (ops : List Op) (hc : cfgWF cfg 
   have e : h1 ++ (Op.fire rid, o1) :: (h2 ++ (op, o) :: h3) = (h1 ++ (Op.fire rid, o1) :: h2) ++ (op, o) :: h3 := by
     simp
   rw [htr, e] at hs
-  have h12 := (specGo12_split cfg _ {} 0 op o h3 hs).2
+  have h12 := (specGo12_split cfg _ (Acc.init cfg) 0 op o h3 hs).2
   have hnw := ((specObs12_ok_iff cfg _ _ op o).mp h12).1
-  have hfired : rid ∈ (accAfter {} (h1 ++ (Op.fire rid, o1) :: h2)).fired := by
+  have hfired : rid ∈ (accAfter (Acc.init cfg) (h1 ++ (Op.fire rid, o1) :: h2)).fired := by
     have e2 : h1 ++ (Op.fire rid, o1) :: h2 = h1 ++ ([(Op.fire rid, o1)] ++ h2) := by simp
     rw [e2, accAfter_append, accAfter_append]
     apply fired_mono rid h2 _ hno
@@ -250,17 +249,17 @@ open Scales.TagPool in
 /-- the same for a request whose deadline had already passed when it was handed to the transport
     (`req .pre`): it is the `nreq`-th request of the connection and is never written -/
 theorem C12_mux_no_write_if_expired_at_issue (cfg : Cfg) (ops : List Op) (hc : cfgWF cfg = true)
-    (ho : opsOk cfg St.init ops = true) (h1 h2 h3 : List (Op × Obs)) (popped : Nat) (o1 : Obs) (op : Op) (o : Obs)
+    (ho : opsOk cfg (initSt cfg) ops = true) (h1 h2 h3 : List (Op × Obs)) (popped : Nat) (o1 : Obs) (op : Op) (o : Obs)
     (htr : comp.modelTrace cfg ops = h1 ++ (.req .pre popped, o1) :: (h2 ++ (op, o) :: h3))
     (hno : ∀ p ∈ h2, p.1 ≠ .reopen) :
-    ∀ f ∈ o.wrote, f.kind = .req → f.arg ≠ (accAfter {} h1).nreq := by
+    ∀ f ∈ o.wrote, f.kind = .req → f.arg ≠ (accAfter (Acc.init cfg) h1).nreq := by
   have hs := C12_mux_model_satisfies_spec cfg ops hc ho
   have e : h1 ++ (Op.req .pre popped, o1) :: (h2 ++ (op, o) :: h3)
       = (h1 ++ (Op.req .pre popped, o1) :: h2) ++ (op, o) :: h3 := by simp
   rw [htr, e] at hs
-  have h12 := (specGo12_split cfg _ {} 0 op o h3 hs).2
+  have h12 := (specGo12_split cfg _ (Acc.init cfg) 0 op o h3 hs).2
   have hnw := ((specObs12_ok_iff cfg _ _ op o).mp h12).1
-  have hfired : (accAfter {} h1).nreq ∈ (accAfter {} (h1 ++ (Op.req .pre popped, o1) :: h2)).fired := by
+  have hfired : (accAfter (Acc.init cfg) h1).nreq ∈ (accAfter (Acc.init cfg) (h1 ++ (Op.req .pre popped, o1) :: h2)).fired := by
     have e2 : h1 ++ (Op.req .pre popped, o1) :: h2 = h1 ++ ([(Op.req .pre popped, o1)] ++ h2) := by simp
     rw [e2, accAfter_append, accAfter_append]
     apply fired_mono _ h2 _ hno
@@ -277,31 +276,31 @@ theorem C12_mux_no_write_if_expired_at_issue (cfg : Cfg) (ops : List Op) (hc : c
 open Scales.TagPool in
 /-- **A sent request that times out is discarded** (ThriftMux; Kafka has no discard message,
     there the tag simply stays leased — `C11_release_only_answered_or_unsent`).  Request `rid`'s frame was written with tag
-    `t` and not answered since (`(t, rid) ∈ unansweredPairs h1`); its time-out callback runs
+    `t` and not answered since (`(t, rid) ∈ unansweredPairs cfg h1`); its time-out callback runs
     (`notify rid`, which requires the fired event); when afterwards, on the same connection, the
     send queue is found empty, a Tdiscarded naming `t` has been written in between. -/
 theorem C12_mux_discard_written (cfg : Cfg) (ops : List Op) (hc : cfgWF cfg = true)
-    (ho : opsOk cfg St.init ops = true) (h1 h2 h3 : List (Op × Obs)) (rid t : Nat) (o1 : Obs) (op : Op) (o : Obs)
+    (ho : opsOk cfg (initSt cfg) ops = true) (h1 h2 h3 : List (Op × Obs)) (rid t : Nat) (o1 : Obs) (op : Op) (o : Obs)
     (htr : comp.modelTrace cfg ops = h1 ++ (.notify rid, o1) :: (h2 ++ (op, o) :: h3))
-    (hfl : cfg.fl = .thriftmux) (hw : (t, rid) ∈ unansweredPairs h1)
+    (hfl : cfg.fl = .thriftmux) (hw : (t, rid) ∈ unansweredPairs cfg h1)
     (hno : ∀ p ∈ h2, p.1 ≠ .reopen) (hop : op ≠ .reopen) (hdrain : o.qlen = 0) :
     ∃ p ∈ (Op.notify rid, o1) :: (h2 ++ [(op, o)]), ∃ f ∈ p.2.wrote, f.kind = .discard ∧ f.arg = t := by
   have hs := C12_mux_model_satisfies_spec cfg ops hc ho
   have e : h1 ++ (Op.notify rid, o1) :: (h2 ++ (op, o) :: h3)
       = (h1 ++ (Op.notify rid, o1) :: h2) ++ (op, o) :: h3 := by simp
   rw [htr, e] at hs
-  have h12 := (specGo12_split cfg _ {} 0 op o h3 hs).2
+  have h12 := (specGo12_split cfg _ (Acc.init cfg) 0 op o h3 hs).2
   have hdd := ((specObs12_ok_iff cfg _ _ op o).mp h12).2.2 hfl hdrain
   -- the accumulator just before the notify step, and what is due in that step
-  have hdue : t ∈ dueNow (accAfter {} h1) (.notify rid) := by
+  have hdue : t ∈ dueNow (accAfter (Acc.init cfg) h1) (.notify rid) := by
     simp only [dueNow, List.mem_append]
     right
     simp only [tagsOf, List.mem_map, List.mem_filter, beq_iff_eq]
     exact ⟨(t, rid), ⟨hw, rfl⟩, rfl⟩
   -- at the end nothing is due
-  have hend : t ∉ (accAfter ((accAfter {} h1).after (.notify rid) o1) (h2 ++ [(op, o)])).owed := by
-    have e2 : accAfter ((accAfter {} h1).after (.notify rid) o1) (h2 ++ [(op, o)])
-        = (accAfter {} (h1 ++ (Op.notify rid, o1) :: h2)).after op o := by
+  have hend : t ∉ (accAfter ((accAfter (Acc.init cfg) h1).after (.notify rid) o1) (h2 ++ [(op, o)])).owed := by
+    have e2 : accAfter ((accAfter (Acc.init cfg) h1).after (.notify rid) o1) (h2 ++ [(op, o)])
+        = (accAfter (Acc.init cfg) (h1 ++ (Op.notify rid, o1) :: h2)).after op o := by
       have e3 : h1 ++ (Op.notify rid, o1) :: h2 = h1 ++ ([(Op.notify rid, o1)] ++ h2) := by simp
       rw [e3, accAfter_append, accAfter_append, accAfter_append]
       simp [accAfter]
@@ -313,7 +312,7 @@ theorem C12_mux_discard_written (cfg : Cfg) (ops : List Op) (hc : cfgWF cfg = tr
     exact ⟨f, hf, hk, ha⟩
   by_cases hd : t ∈ discTags o1.wrote
   · exact ⟨(Op.notify rid, o1), by simp, toFrame _ hd⟩
-  · have hin : t ∈ ((accAfter {} h1).after (.notify rid) o1).owed := by
+  · have hin : t ∈ ((accAfter (Acc.init cfg) h1).after (.notify rid) o1).owed := by
       rw [after_owed _ _ _ (by simp)]
       exact mem_eraseAll _ _ hdue hd
     have hno' : ∀ p ∈ h2 ++ [(op, o)], p.1 ≠ .reopen := by
@@ -330,14 +329,13 @@ open Scales.TagPool in
     callback of request `rid`, whose frame was written with tag `t` and is unanswered, the tags
     that become due are exactly `[t]`. -/
 theorem C12_mux_due_once (cfg : Cfg) (ops : List Op) (hc : cfgWF cfg = true)
-    (ho : opsOk cfg St.init ops = true) (h1 h2 : List (Op × Obs)) (rid t : Nat) (o1 : Obs)
+    (ho : opsOk cfg (initSt cfg) ops = true) (h1 h2 : List (Op × Obs)) (rid t : Nat) (o1 : Obs)
     (htr : comp.modelTrace cfg ops = h1 ++ (.notify rid, o1) :: h2)
-    (hw : (t, rid) ∈ unansweredPairs h1) :
-    dueAdded (accAfter {} h1) (.notify rid) = [t] := by
-  simp only [cfgWF, decide_eq_true_eq] at hc
+    (hw : (t, rid) ∈ unansweredPairs cfg h1) :
+    dueAdded (accAfter (Acc.init cfg) h1) (.notify rid) = [t] := by
   obtain ⟨o1', o2', hops, hh1, hok1, hh2, hok2⟩ := trace_prefix cfg ops h1 _ ho htr
-  have hinv := Inv_trace cfg hc o1' {} St.init (Inv_init cfg hc) hok1
-  have hinv12 := Inv12_trace cfg hc o1' {} St.init (Inv_init cfg hc) (Inv12_init cfg) hok1
+  have hinv := Inv_trace cfg (wf_max hc) o1' (Acc.init cfg) (initSt cfg) (Inv_init cfg hc) hok1
+  have hinv12 := Inv12_trace cfg (wf_max hc) o1' (Acc.init cfg) (initSt cfg) (Inv_init cfg hc) (Inv12_init cfg) hok1
   rw [← hh1] at hinv hinv12
   -- the first operation of the rest is the notify, and it is enabled
   cases o2' with
@@ -348,7 +346,7 @@ theorem C12_mux_due_once (cfg : Cfg) (ops : List Op) (hc : cfgWF cfg = true)
     subst hop'
     simp only [opsOk, Bool.and_eq_true] at hok2
     have hen := hok2.1
-    have hs : reachFrom cfg St.init o1' = reach cfg o1' := rfl
+    have hs : reachFrom cfg (initSt cfg) o1' = reach cfg o1' := rfl
     rw [hs] at hinv hinv12
     -- the callback is enabled: the request exists and is subscribed (either transport)
     have hex : ∃ r, (reach cfg o1').reqs[rid]? = some r ∧ r.sub = true := by
@@ -375,7 +373,7 @@ theorem C12_mux_due_once (cfg : Cfg) (ops : List Op) (hc : cfgWF cfg = true)
     obtain ⟨r, hr, hsub⟩ := hex
     have hsk := hinv12.subkey rid r hr hsub
     have hk : r.key = .tag t := (hsk t).mpr hw
-    have hall : ∀ t', (t', rid) ∈ (accAfter {} h1).unans → t' = t := by
+    have hall : ∀ t', (t', rid) ∈ (accAfter (Acc.init cfg) h1).unans → t' = t := by
       intro t' ht'
       have := (hsk t').mpr ht'
       rw [hk] at this; injection this with e; exact e.symm
@@ -387,17 +385,17 @@ open Scales.TagPool in
     the end, are exactly the entries due at the start plus those that became due in between — no
     Tdiscarded is written that was not due, none is written twice, none is lost. -/
 theorem C12_mux_discard_exactly_once (cfg : Cfg) (ops : List Op) (hc : cfgWF cfg = true)
-    (ho : opsOk cfg St.init ops = true) (hfl : cfg.fl = .thriftmux) (h1 h2 h3 : List (Op × Obs)) (t : Nat)
+    (ho : opsOk cfg (initSt cfg) ops = true) (hfl : cfg.fl = .thriftmux) (h1 h2 h3 : List (Op × Obs)) (t : Nat)
     (htr : comp.modelTrace cfg ops = h1 ++ h2 ++ h3) (hno : ∀ p ∈ h2, p.1 ≠ .reopen) :
-    discardsWritten t h2 + (owedAfter (h1 ++ h2)).count t
-      = (owedAfter h1).count t + madeDue t (accAfter {} h1) h2 := by
+    discardsWritten t h2 + (owedAfter cfg (h1 ++ h2)).count t
+      = (owedAfter cfg h1).count t + madeDue t (accAfter (Acc.init cfg) h1) h2 := by
   have hs := C12_mux_model_satisfies_spec cfg ops hc ho
   rw [htr] at hs
-  have hs12 : specGo12 cfg (accAfter {} h1) (0 + h1.length) h2 = .ok := by
-    have h1' := specGo12_prefix cfg (h1 ++ h2) h3 {} 0 hs
-    exact specGo12_suffix cfg h1 h2 {} 0 h1'
+  have hs12 : specGo12 cfg (accAfter (Acc.init cfg) h1) (0 + h1.length) h2 = .ok := by
+    have h1' := specGo12_prefix cfg (h1 ++ h2) h3 (Acc.init cfg) 0 hs
+    exact specGo12_suffix cfg h1 h2 (Acc.init cfg) 0 h1'
   have hok := discStepsOk_of_spec12 cfg hfl h2 _ _ hs12
-  have := discard_accounting t h2 (accAfter {} h1) hno hok
+  have := discard_accounting t h2 (accAfter (Acc.init cfg) h1) hno hok
   simp only [owedAfter, accAfter_append]
   exact this
 
@@ -490,7 +488,7 @@ open Scales.TagPool in
     runnable, the send queue is empty and no write is in progress (`quiet`), a Tdiscarded naming
     `t` has been written since the deadline fired — unless the peer answered `t` meanwhile. -/
 theorem C12_mux_timed_out_written_is_discarded (cfg : Cfg) (ops : List Op) (hc : cfgWF cfg = true)
-    (ho : opsOk cfg St.init ops = true) (h1 h2 h3 h4 : List (Op × Obs)) (opw : Op) (ow : Obs) (rid t : Nat)
+    (ho : opsOk cfg (initSt cfg) ops = true) (h1 h2 h3 h4 : List (Op × Obs)) (opw : Op) (ow : Obs) (rid t : Nat)
     (o2 o : Obs)
     (htr : comp.modelTrace cfg ops = h1 ++ (opw, ow) :: (h2 ++ (.fire rid, o2) :: (h3 ++ (.quiet, o) :: h4)))
     (hfl : cfg.fl = .thriftmux)
@@ -498,13 +496,13 @@ theorem C12_mux_timed_out_written_is_discarded (cfg : Cfg) (ops : List Op) (hc :
     (hno : ∀ p ∈ h2 ++ (Op.fire rid, o2) :: h3, p.1 ≠ .reopen)
     (hna : ∀ p ∈ h2 ++ (Op.fire rid, o2) :: h3, ∀ m, p.1 ≠ .process m t)
     (hq : o.qlen = 0)
-    (hidle : writeInProgress (h1 ++ (opw, ow) :: (h2 ++ (Op.fire rid, o2) :: h3)) = false) :
+    (hidle : writeInProgress cfg (h1 ++ (opw, ow) :: (h2 ++ (Op.fire rid, o2) :: h3)) = false) :
     ∃ p ∈ (Op.fire rid, o2) :: h3, ∃ f ∈ p.2.wrote, f.kind = .discard ∧ f.arg = t := by
   have hs := C12_mux_model_satisfies_spec cfg ops hc ho
   have e : h1 ++ (opw, ow) :: (h2 ++ (Op.fire rid, o2) :: (h3 ++ (Op.quiet, o) :: h4))
       = (h1 ++ (opw, ow) :: (h2 ++ (Op.fire rid, o2) :: h3)) ++ (Op.quiet, o) :: h4 := by simp
   rw [htr, e] at hs
-  have hM := specGo12_splitM cfg _ {} 0 .quiet o h4 hs
+  have hM := specGo12_splitM cfg _ (Acc.init cfg) 0 .quiet o h4 hs
   -- at the quiet point nothing is due
   have hend := specObsM_quiet_ok cfg _ _ o hM hfl hq hidle
   -- the accumulator along the history
@@ -520,7 +518,7 @@ theorem C12_mux_timed_out_written_is_discarded (cfg : Cfg) (ops : List Op) (hc :
   have hpair : (t, rid) ∈ reqPairs ow.wrote := by
     simp only [reqPairs, List.mem_map, List.mem_filter]
     exact ⟨⟨.req, t, rid⟩, ⟨hw, rfl⟩, rfl⟩
-  have hu1 : (t, rid) ∈ (accAfter (accAfter {} h1) [(opw, ow)]).unans := by
+  have hu1 : (t, rid) ∈ (accAfter (accAfter (Acc.init cfg) h1) [(opw, ow)]).unans := by
     simp only [accAfter, List.foldl_cons, List.foldl_nil]
     cases opw with
     | reopen => exact absurd rfl hopw
@@ -542,14 +540,14 @@ theorem C12_mux_timed_out_written_is_discarded (cfg : Cfg) (ops : List Op) (hc :
   by_cases hd : t ∈ discTags o2.wrote
   · exact ⟨(Op.fire rid, o2), by simp, toFrame _ hd⟩
   · -- the firing makes `t` due
-    have hdue : t ∈ (accAfter (accAfter (accAfter (accAfter {} h1) [(opw, ow)]) h2) [(Op.fire rid, o2)]).must := by
+    have hdue : t ∈ (accAfter (accAfter (accAfter (accAfter (Acc.init cfg) h1) [(opw, ow)]) h2) [(Op.fire rid, o2)]).must := by
       simp only [accAfter, List.foldl_cons, List.foldl_nil]
       rw [after_must]
       simp only [mustAfter]
       refine mem_dropDiscarded.mpr ⟨List.mem_append_right _ ?_, hd⟩
       simp only [tagsOf, List.mem_map, List.mem_filter, beq_iff_eq]
       exact ⟨(t, rid), ⟨hu2, rfl⟩, rfl⟩
-    have hgone : t ∉ (accAfter (accAfter (accAfter (accAfter (accAfter {} h1) [(opw, ow)]) h2)
+    have hgone : t ∉ (accAfter (accAfter (accAfter (accAfter (accAfter (Acc.init cfg) h1) [(opw, ow)]) h2)
         [(Op.fire rid, o2)]) h3).must := by rw [hend]; simp
     obtain ⟨p, hp, hpd⟩ := must_consumed t h3 _ hno3 hna3 hdue hgone
     exact ⟨p, List.mem_cons_of_mem _ hp, toFrame p hpd⟩
@@ -561,7 +559,7 @@ open Scales.TagPool in
     moment, and — the frame does go out — a Tdiscarded naming its tag has been written by the
     first idle moment after the write returned (same side conditions as above). -/
 theorem C12_mux_timeout_during_write_is_discarded (cfg : Cfg) (ops : List Op) (hc : cfgWF cfg = true)
-    (ho : opsOk cfg St.init ops = true) (h1 h2 h3 h4 : List (Op × Obs)) (ow : Obs) (rid t : Nat) (o2 o : Obs)
+    (ho : opsOk cfg (initSt cfg) ops = true) (h1 h2 h3 h4 : List (Op × Obs)) (ow : Obs) (rid t : Nat) (o2 o : Obs)
     (htr : comp.modelTrace cfg ops = h1 ++ (.wbegin, ow) :: (h2 ++ (.fire rid, o2) :: (h3 ++ (.quiet, o) :: h4)))
     (hfl : cfg.fl = .thriftmux)
     (hw : (⟨.req, t, rid⟩ : Frame) ∈ ow.wrote)
@@ -569,8 +567,8 @@ theorem C12_mux_timeout_during_write_is_discarded (cfg : Cfg) (ops : List Op) (h
     (hno : ∀ p ∈ h2 ++ (Op.fire rid, o2) :: h3, p.1 ≠ .reopen)
     (hna : ∀ p ∈ h2 ++ (Op.fire rid, o2) :: h3, ∀ m, p.1 ≠ .process m t)
     (hq : o.qlen = 0)
-    (hidle : writeInProgress (h1 ++ (Op.wbegin, ow) :: (h2 ++ (Op.fire rid, o2) :: h3)) = false) :
-    writeInProgress (h1 ++ (Op.wbegin, ow) :: h2) = true ∧
+    (hidle : writeInProgress cfg (h1 ++ (Op.wbegin, ow) :: (h2 ++ (Op.fire rid, o2) :: h3)) = false) :
+    writeInProgress cfg (h1 ++ (Op.wbegin, ow) :: h2) = true ∧
     ∃ p ∈ (Op.fire rid, o2) :: h3, ∃ f ∈ p.2.wrote, f.kind = .discard ∧ f.arg = t := by
   refine ⟨?_, C12_mux_timed_out_written_is_discarded cfg ops hc ho h1 h2 h3 h4 .wbegin ow rid t o2 o htr hfl hw
     (by simp) hno hna hq hidle⟩
@@ -597,12 +595,12 @@ open Scales.TagPool in
 /-- non-vacuity: request 0 (with a deadline) blocks in its write, request 1 queues up behind it,
     the deadline fires while the write is blocked, the callback queues the Tdiscarded behind
     request 1, the write returns, request 1 and the Tdiscarded go out -/
-example : comp.wf ⟨2 ^ 24 - 1, .thriftmux⟩
+example : comp.wf { max := 2 ^ 24 - 1, fl := .thriftmux }
     [.req .ev 0, .wbegin, .req .noev 0, .quiet, .fire 0, .notify 0, .quiet, .wend, .send, .send, .quiet] = true := by
   decide
 
 open Scales.TagPool in
-example : (comp.modelTrace ⟨2 ^ 24 - 1, .thriftmux⟩
+example : (comp.modelTrace { max := 2 ^ 24 - 1, fl := .thriftmux }
     [.req .ev 0, .wbegin, .req .noev 0, .quiet, .fire 0, .notify 0, .quiet, .wend, .send, .send, .quiet]).map
       (fun p => (p.2.wrote, p.2.qlen)) =
     [([], 1), ([⟨.req, 2, 0⟩], 0), ([], 1), ([], 1), ([], 1), ([], 2), ([], 2), ([], 2),
@@ -611,9 +609,27 @@ example : (comp.modelTrace ⟨2 ^ 24 - 1, .thriftmux⟩
 
 open Scales.TagPool in
 /-- the same on Kafka: `_OnTimeout` is a no-op, nothing is queued, the tag stays leased -/
-example : (comp.modelTrace ⟨2 ^ 24 - 1, .kafka⟩
+example : (comp.modelTrace { max := 2 ^ 24 - 1, fl := .kafka }
     [.req .ev 0, .wbegin, .fire 0, .notify 0, .quiet, .wend, .quiet]).map (fun p => (p.2.wrote, p.2.qlen, p.2.tagmap)) =
     [([], 1, [2]), ([⟨.req, 2, 0⟩], 0, [2]), ([], 0, [2]), ([], 0, [2]), ([], 0, [2]), ([], 0, [2]), ([], 0, [2])] := by
+  decide
+
+open Scales.TagPool in
+/-- an aged connection (high-water mark 0x010203, tags 2, 258 and 65538 released — they differ in one
+    tag byte only): the three requests hold them together, the one holding 65538 times out on the
+    wire, the Tdiscarded names exactly 65538; a request past its deadline on issue gives 258 back unsent -/
+example : (comp.modelTrace { max := 2 ^ 24 - 1, fl := .thriftmux, next := 0x010203, free := [2, 258, 65538] }
+    [.req .noev 2, .req .ev 65538, .req .pre 258, .send, .send, .send, .quiet, .fire 1, .notify 1, .send, .quiet]).map
+      (fun p => (p.2.wrote, p.2.tagmap, p.2.free)) =
+    [([], [2], [258, 65538]), ([], [2, 65538], [258]), ([], [2, 258, 65538], []),
+     ([⟨.req, 2, 0⟩], [2, 258, 65538], []), ([⟨.req, 65538, 1⟩], [2, 258, 65538], []), ([], [2, 65538], [258]),
+     ([], [2, 65538], [258]), ([], [2, 65538], [258]), ([], [2, 65538], [258]),
+     ([⟨.discard, 0, 65538⟩], [2, 65538], [258]), ([], [2, 65538], [258])] := by
+  decide
+
+open Scales.TagPool in
+example : comp.wf { max := 2 ^ 24 - 1, fl := .thriftmux, next := 0x010203, free := [2, 258, 65538] }
+    [.req .noev 2, .req .ev 65538, .req .pre 258, .send, .send, .send, .quiet, .fire 1, .notify 1, .send, .quiet] = true := by
   decide
 
 open Scales.TagPool in
@@ -622,7 +638,7 @@ open Scales.TagPool in
     ever runs, the frame goes out, no Tdiscarded follows — the specification rejects the history at
     the first idle moment after the write -/
 theorem C12_mux_watch_after_write_rejected :
-    spec12 ⟨2 ^ 24 - 1, .thriftmux⟩
+    spec12 { max := 2 ^ 24 - 1, fl := .thriftmux }
       [(.req .ev 0, ⟨.ok, 2, [], [], [2], [], 2, 1⟩),
        (.wbegin, ⟨.ok, 0, [⟨.req, 2, 0⟩], [], [2], [], 2, 0⟩),
        (.fire 0, ⟨.ok, 0, [], [], [2], [], 2, 0⟩),
